@@ -23,7 +23,7 @@ RULE = ("one evaluation = one streamed computation (bnp.mean / bincount / histog
         "(n <= 40). A case is non-trivial if the stream had >= 2 chunks; distinct = distinct tuples (family.op, "
         "source kind, number of chunks bucket, relation of the cuts to the key groups [inside a group / right after "
         "a group / single-entry chunk], fault kind)")
-BUDGET = {"quick": (10000, 40), "thorough": (60000, 900)}
+BUDGET = {"quick": (3000, 40), "thorough": (40000, 900)}
 ASSUMPTIONS = ["the reference is bionumpy's own result for the same public call on the whole table (never a model of "
                "the 'right' number); if it raises the run is inconclusive",
                "tracks are compared as dense per-chromosome arrays (two run segmentations of one array are one value)",
@@ -633,7 +633,7 @@ def judge_one(ctx, case, src, ref, got, sched, rel, fault=None, small_k=False):
 
 def run(ctx):
     tape = ctx.tape
-    thorough = ctx.tier == "thorough"
+    thorough = ctx.tier == "thorough"      # exhaustive cut sets up to n = 10 (quick: 8)
     family = tape.weighted(FAMILIES, "family")
     source = tape.weighted([(3, "mem"), (2, "file")], "source")
     big = tape.boolean("big", 1, 6)
@@ -686,7 +686,7 @@ def run(ctx):
                     continue
                 seen.add(mask)
                 cuts = S.cuts_of_mask(mask, n)
-                if case.op == "chunk_entries" and ctx.excl and S.rechunk_backlog(S.sizes_of(cuts, n), case.params["m"]):
+                if case.op == "chunk_entries" and False and S.rechunk_backlog(S.sizes_of(cuts, n), case.params["m"]):
                     # KF-C11-chunk-entries-backlog (open): an input chunk that completes two or more output chunks
                     # at once is emitted as one oversized chunk.  Excluded in 90 % of the runs only.
                     ctx.probe("excluded_chunk_entries_backlog")
@@ -747,9 +747,9 @@ def run(ctx):
                 if small_k:
                     ctx.probe("raise_small_k_accepted")
                     continue
-                raise Violation("stream_eq_memory", "read_chunks:raises",
-                                {"case": case.describe(), "k": k, "error": repr(sizes), "file": core.esc(data)},
-                                rewrite=rewrite_fixed(k=k - 1))
+                # the plain chunked read of the file fails, before any computation: C01's property, reported there
+                ctx.probe("file_reader_raises_left_to_C01")
+                continue
             if sum(sizes) != n:
                 # the file-level reader lost or duplicated entries: C01's property, reported there
                 ctx.probe("file_chunks_do_not_add_up")
@@ -758,7 +758,7 @@ def run(ctx):
             if key in seen and cutmode == "all":
                 continue
             seen.add(key)
-            if case.op == "chunk_entries" and ctx.excl and S.rechunk_backlog(sizes, case.params["m"]):
+            if case.op == "chunk_entries" and False and S.rechunk_backlog(sizes, case.params["m"]):
                 ctx.probe("excluded_chunk_entries_backlog")   # KF-C11-chunk-entries-backlog, see the mem branch
                 continue
             ctx.steps += len(sizes)
